@@ -1229,6 +1229,8 @@ func isUnknownSpec(a predOutcome) predOutcome {
 //@ alsoprops E6-error-propagated C17
 //@ props C17 C08
 //@ requires node.Operator() >= ast.UnaryDateTime
+//@ ensures [C17 C01 C09] the-cast-value-goes-on-unless-the-path-ends-here: r0 != statusFailed && ncalls(exec.executeNextItem) == 0 ==> node.Next() == nil && found == nil
+//@ ensures [C17 C01 C09] hand-on: ncalls(exec.executeNextItem) == 1 ==> callarg[*valueList](exec.executeNextItem, "found") == found && callarg[ast.Node](exec.executeNextItem, "next") == node.Next() && r0 == callret[resultStatus](exec.executeNextItem, 0) && r1 == callret[error](exec.executeNextItem, 1)
 //@ ensures [C17] non-string: !is[string](value) ==> r0 == statusFailed && (r1 == nil || errIs(r1, ErrVerbose)) && ncalls(exec.executeNextItem) == 0
 //@ ensures [C17 C08] template-unsupported: is[string](value) && node.Operator() == ast.UnaryDateTime && node.Operand() != nil ==> r0 == statusFailed && r1 != nil && !errIs(r1, ErrVerbose) && ncalls(exec.executeNextItem) == 0
 //@ ensures [C17] cast-date: node.Operator() == ast.UnaryDate && ncalls(exec.executeNextItem) == 1 ==> ncalls(exec.castDate) == 1 && callarg[any](exec.executeNextItem, "value") == any(callret[*types.Date](exec.castDate, 0))
